@@ -265,7 +265,9 @@ class P(framework.Prop):
             if xv is not None and "&" in xv.split(" "):
                 continue
             exp = None
-            if xv is None:
+            if kind == "mlist" and d == "n":
+                exp = "OK n"          # a multi-select on null is null: the members are not evaluated
+            elif xv is None:
                 exp = xobs
             elif kind == "not":
                 exp = "OK t" if falsy(xv) else "OK f"
